@@ -279,6 +279,10 @@ class Interp:
         self.selfobj = selfobj
         self.calls = calls or {}
         self.asserts = []
+        self.assert_values = []       # symbolic comparisons asserted on the interpreted path
+        self.modfuncs = {}            # module-level functions that may be inlined when called by name
+        self.isinstance_hook = None   # (node_args, env) -> bool | None
+        self.depth = 0
         self.mangled = mangled_cls
 
     # ----------------------------------------------------------------- statements
@@ -312,9 +316,20 @@ class Interp:
 
     def stmt(self, st, env):
         if isinstance(st, ast.Expr):
+            # a bare call of a local / module-level helper is interpreted for its effects (asserts, in-place
+            # updates of arrays); other expression statements (docstrings, prints, ...) are skipped
+            v = st.value
+            if isinstance(v, ast.Call) and isinstance(v.func, ast.Name) and (isinstance(env.get(v.func.id), LocalFn) or (v.func.id in self.modfuncs and v.func.id not in env)):
+                self.ev(v, env)
             return
         if isinstance(st, ast.Assert):
             self.asserts.append(st)
+            try:
+                v = self.ev(st.test, env)
+            except TranslateError:
+                v = None
+            if isinstance(v, tuple) and v and v[0] == 'cmpchain':
+                self.assert_values.append(v)
             return
         if isinstance(st, ast.Pass):
             return
@@ -569,6 +584,8 @@ class Interp:
                 return env[n.id]
             if n.id in ("np", "numpy"):
                 return ('module', 'np')
+            if n.id == "operator":
+                return ('module', 'operator')
             return Opaque("unbound name %s" % n.id)
         if isinstance(n, ast.JoinedStr):
             out = ""
@@ -624,6 +641,10 @@ class Interp:
             return Opaque("undecided boolean `%s`" % ast.unparse(n)[:50])
         if isinstance(n, ast.Compare):
             left = self.ev(n.left, env)
+            operands = [left] + [self.ev(rn, env) for rn in n.comparators]
+            symops = {ast.Lt: '<', ast.LtE: '<=', ast.Gt: '>', ast.GtE: '>='}
+            if any(is_tree(x) for x in operands) and all(is_tree(x) or is_num(x) for x in operands) and all(type(o) in symops for o in n.ops):
+                return ('cmpchain', [(symops[type(o)], a_, b_) for o, a_, b_ in zip(n.ops, operands, operands[1:])])
             res = True
             for op, rn in zip(n.ops, n.comparators):
                 right = self.ev(rn, env)
@@ -676,6 +697,9 @@ class Interp:
                 return ('npfunc', n.attr)
             if base == ('module', 'np.linalg'):
                 return ('npfunc', 'linalg.' + n.attr)
+            if base == ('module', 'operator'):
+                sym = {"ge": '>=', "gt": '>', "le": '<=', "lt": '<'}.get(n.attr)
+                return ('opfunc', sym) if sym else Opaque("operator.%s" % n.attr)
             if isinstance(base, Arr):
                 if n.attr == "shape":
                     return base.shape
@@ -721,6 +745,37 @@ class Interp:
             if key in self.calls:
                 return self.calls[key](args, kw)
             return Opaque("call self.%s" % name)
+        if isinstance(f, ast.Name) and f.id == "isinstance" and self.isinstance_hook is not None:
+            r = self.isinstance_hook(n.args, env)
+            if r is not None:
+                return r
+        if isinstance(f, ast.Name) and isinstance(env.get(f.id), tuple) and env[f.id][:1] == ('opfunc',) and len(args) == 2:
+            a_, b_ = args
+            if (is_tree(a_) or is_num(a_)) and (is_tree(b_) or is_num(b_)):
+                return ('cmpchain', [(env[f.id][1], a_, b_)])
+            return Opaque("comparison function applied to non-scalars")
+        if isinstance(f, ast.Name) and f.id not in env and f.id not in self.calls and f.id in self.modfuncs and self.depth < 4:
+            # a module-level helper called by name: inlined (its own scope = its arguments)
+            fn = self.modfuncs[f.id]
+            a = fn.args
+            if not (a.vararg or a.kwarg or a.kwonlyargs or a.posonlyargs):
+                names = [x.arg for x in a.args]
+                bound = {}
+                for nm, dv in zip(names[len(names) - len(a.defaults):], a.defaults):
+                    bound[nm] = self.ev(dv, {})
+                if len(args) <= len(names) and all(k in names for k in kw):
+                    bound.update(zip(names, args))
+                    bound.update(kw)
+                    if all(nm in bound for nm in names):
+                        self.depth += 1
+                        try:
+                            self.block(fn.body, bound)
+                            return None
+                        except _Return as r:
+                            return r.v
+                        finally:
+                            self.depth -= 1
+            return Opaque("call of module function %s with an unsupported signature" % f.id)
         if isinstance(f, ast.Name):
             if isinstance(env.get(f.id), LocalFn):
                 lf = env[f.id]
